@@ -9,6 +9,8 @@ import Homonim.Model.Orient
 import Homonim.Model.Kernel
 import Homonim.Model.Resample
 import Homonim.Model.Mask
+import Homonim.Model.Convert
+import Homonim.Model.Layout
 open Homonim
 
 def ints (ts : List String) : Option (List Int) := ts.mapM String.toInt?
@@ -99,6 +101,35 @@ def handleResample (toks : List String) : String :=
 def parseFVal (t : String) : Option FVal :=
   if t = "nan" then some .nan else (parseRat t).map .fin
 
+def parseXVal (t : String) : Option XVal :=
+  if t = "nan" then some .nan else if t = "inf" then some .pinf else if t = "-inf" then some .ninf
+  else (parseRat t).map .fin
+
+def parseDType : String → Option DType
+  | "uint8" => some .uint8 | "uint16" => some .uint16 | "int16" => some .int16
+  | "uint32" => some .uint32 | "int32" => some .int32 | "float32" => some .float | "float64" => some .float
+  | _ => none
+
+def showXVal : XVal → String
+  | .fin q => showRat q | .pinf => "inf" | .ninf => "-inf" | .nan => "nan"
+
+/-- convert <dtype> <nodata: number | nan | null> v...  →  per value `<stored>:<maskbit>` or `err` if nodata is not castable -/
+def handleConvert (toks : List String) : String :=
+  match toks with
+  | dt :: nd :: vals =>
+    let ndv : Option OutNodata := if nd = "null" then some .null else if nd = "nan" then some .nan
+      else (parseRat nd).map .num
+    match parseDType dt, ndv, vals.mapM parseXVal with
+    | some dt, some ndv, some xs =>
+      if !nodataCastable dt ndv then "err" else
+      " ".intercalate (xs.map fun x =>
+        let p := convertPx dt ndv x
+        let s := match p.1 with
+          | .val v => showXVal v | .ival n => toString n | .unspecified => "?"
+        s!"{s}:{if p.2 then 1 else 0}")
+    | _, _, _ => "bad-args"
+  | _ => "bad-args"
+
 def handle (toks : List String) : String :=
   match toks with
   | "blocks1" :: rest =>
@@ -174,6 +205,7 @@ def handle (toks : List String) : String :=
       s!"{if r.1.northUp then 1 else 0} {r.1.crs} {if r.2.northUp then 1 else 0} {r.2.crs}"
     | _ => "bad-args"
   | "fit" :: rest => handleFit rest
+  | "convert" :: rest => handleConvert rest
   | "resample" :: rest => handleResample rest
   -- erode kh kw h w <h*w bits>  : `_full_coverage_mask` erosion over one block (false border)
   | "erode" :: kh :: kw :: h :: w :: bits =>
@@ -185,6 +217,20 @@ def handle (toks : List String) : String :=
       " ".intercalate ((List.range h).flatMap fun r => (List.range w).map fun c =>
         if erodeAt kh kw h w m r c then "1" else "0")
     | _, _, _, _ => "bad-args"
+  -- layout n : for every band 1..3n of the parameter image "<pair>.<suffix>" (pair 0-based), from the metadata loop
+  | ["layout", n] =>
+    match n.toNat? with
+    | some n =>
+      let asg := descrAssignments n (3 * n)
+      " ".intercalate ((List.range (3 * n)).map fun b =>
+        match asg.find? (fun p => p.1 == b + 1) with
+        | some p =>
+          -- which pair writes this band: invert paramIndex
+          match (List.range n).find? (fun i => paramIndex n i p.2 == b + 1) with
+          | some i => s!"{i}.{suffixName p.2}"
+          | none => "?"
+        | none => "?")
+    | none => "bad-args"
   | "readpx" :: rest =>
     match rest with
     | [im, nd, st, mb] =>
